@@ -22,9 +22,19 @@ RULES = {
 }
 
 
+# Sites of the multi-way union that the linear template domain cannot decide, each with the hand argument (read and
+# confirmed on the current source).  A site listed here is NOT claimed; any other site that cannot be proved is reported.
+DECLINED = {
+    # "output-write" = the store of an emitted VALUE into the uint32 output buffer (whatever the locals are called)
+    ("set_union_merge_many", "output-write", "upper"):
+        "needs a counting argument over array contents: every emission is followed by at least one pointer advance (the array that supplied the minimum), "
+        "a pointer never passes its limit, and the limits sum to len(values) = len(result_view); relational in the contents of pointers/values",
+}
+
+
 def main(tier):
     rep = core.Report("C09", level="proof", rules=RULES, tier=tier,
-                      declined="set_union_merge_many (outside the property's anchors): its indices depend on array contents (values[ptr], pointers[min_arrnum]); reported as not analysed, never as a violation")
+                      declined="the upper bound of the multi-way union's output write result_view[result_len] (needs a counting argument over array contents; see DECLINED in checks/c09.py). Every other access of set_union_merge_many is decided by the content-aware analysis")
     rep.trusted_base = ["Cython 3.3.0 parser + type analysis (the front-end that compiles the module)", "own Fourier-Motzkin entailment (sa/fm.py)",
                         "facts: x.shape[0] >= 0; len(numpy.empty(n)) = n; a memoryview assigned from an array has its length"]
     rep.assume("array lengths are below 2^30 so C int sums of lengths do not overflow (documented 2^31 limit of the kernels)")
@@ -33,6 +43,8 @@ def main(tier):
     funcs = cyfront.functions(tree)
     total_sites = 0
     analysed = []
+    many = []
+    declined_seen = set()
     for f in funcs:
         has_mv_arg = any(str(a.type).endswith("[:]") for a in f.node.args)
         n_mv = linabs.count_sites(f)
@@ -40,9 +52,36 @@ def main(tier):
             continue
         where = "set_operations:%s" % f.name
         if not has_mv_arg:
+            # a kernel that builds its own buffers (the multi-way union): content-aware analysis.  Indices read from
+            # integer arrays are bounded by facts about ALL elements of those arrays, derived from how the prelude
+            # builds them (sa/linabs.py: py_expr); a site the linear domain cannot reach is listed in DECLINED with the
+            # hand argument, any OTHER unprovable site is reported.
             r = linabs.analyse_function(f)
-            rep.note("%s: %d memoryview accesses, outside C09's anchored scope; analysis status=%s %s; not a verdict"
-                     % (f.name, n_mv, r["status"], r["reason"] or [x[1] for x in r["nonaffine"]]))
+            many.append({"function": f.name, "memoryview_sites": n_mv, "status": r["status"], "loops": r["loops"], "lemmas": r.get("lemmas", []),
+                         "element_facts": r.get("element_facts", {})})
+            if r["status"] != "ok":
+                rep.undecided("R-C09-scope", where, "kernel structure (content-aware)", "outside the analysable subset: %s" % r["reason"])
+                continue
+            rep.proved("R-C09-scope", where, "kernel structure (content-aware)", "%d accesses; indices read from arrays are bounded through element facts %s" % (n_mv, r.get("element_facts", {})))
+            for lm in r.get("lemmas", []):
+                rep.assume("NumPy fact used for %s: %s" % (f.name, lm))
+            for s in r["sites"]:
+                rule = "R-C09-lower" if s.kind == "lower" else "R-C09-upper"
+                w = "%s@%d" % (where, s.line)
+                cons = "%s bound of %s[%s]" % (s.kind, s.base, s.idx)
+                dk = (f.name, "output-write" if getattr(s, "data_write", False) else "%s[%s]" % (s.base, s.idx), s.kind)
+                if s.ok:
+                    rep.proved(rule, w, cons, s.desc + " entailed (loop invariants + element facts)")
+                elif s.witness is not None:
+                    m = s.witness["model"]
+                    rep.violated(rule, w, cons, "out-of-bounds access reachable on a path whose decisions do not depend on array contents (or are forced by the element facts): %s fails" % s.desc,
+                                 witness={"sizes and locals": {k: v for k, v in m.items() if not k.startswith(("snap_", "rd"))}, "branch trace": s.witness["trace"]})
+                elif dk in DECLINED:
+                    rep.note("%s %s: not decided by the linear domain - %s" % (w, cons, DECLINED[dk]))
+                    declined_seen.add(dk)
+                else:
+                    rep.undecided(rule, w, cons, "not entailed by the invariants and element facts, and no content-independent counterexample: %s"
+                                  % "; ".join(cstr(c) for c in (s.fail_state or [])[:6]))
             continue
         total_sites += n_mv
         r = linabs.analyse_function(f)
@@ -89,6 +128,10 @@ def main(tier):
             rep.check(not bad, "R-C09-xcheck", where, "bounded exact exploration (3 iterations) finds no out-of-bounds access",
                       "%d sites explored exactly" % len(b.sites), "exact exploration reaches %s out of bounds although the invariant proof passed" % (bad and bad[0].desc))
     rep.analysed["kernels"] = analysed
+    rep.analysed["content_aware_kernels"] = many
+    for dk in DECLINED:
+        if dk not in declined_seen and many:
+            rep.note("declined site %s no longer fails (or no longer exists)" % (dk,))
     rep.analysed["memoryview_sites"] = total_sites
     rep.floor("R-C09-scope", 35, total_sites)
     return rep.finish()
